@@ -78,7 +78,10 @@ class SIdSeq(Sym):
         self.fs, self.p = fs, p
 
     def sym_iter(self, ex):
-        return CutSeq(self.n, lambda interp, i: SId(self.at(i)), label=self.label)
+        def at(interp, i):
+            interp.ctx.ghost["cur_job_id"] = self.at(i)
+            return SId(self.at(i))
+        return CutSeq(self.n, at, label=self.label)
 
     def sym_len(self, ex):
         return SInt(self.n)
@@ -292,6 +295,9 @@ class SCacheVal(Sym):
     def keyset(self):
         return SymSet.of_array(cache_domA(self.d))
 
+    def sym_len(self, ex):
+        return SInt(CARD(cache_domA(self.d)))
+
 
 # SCache gains the operations project.py uses
 def _cache_getattr(self, ex, name):
@@ -309,7 +315,8 @@ def _cache_getattr(self, ex, name):
 
 
 SCache.sym_getattr = _cache_getattr
-SCache.sym_len = lambda self, ex: SInt(z3.Int(ex.fresh_name("cache_len")))
+CARD = z3.Function("CARD", z3.ArraySort(Id, z3.BoolSort()), z3.IntSort())      # number of keys of a finite map (a function of its key set)
+SCache.sym_len = lambda self, ex: SInt(CARD(self.dom))
 
 
 class PContract(FSContract):
@@ -911,6 +918,20 @@ class ProjRepair(PContract):
             c.sym_setitem(ex, jid, v)
             return v
         ctx.callee_contracts[f"{PRJ}.Project._get_statepoint"] = get_sp
+        ctx.callee_contracts[f"{PRJ}.Project._get_statepoint_from_workspace"] = stub_get_sp_from_ws
+        orig_open = stub_open_job_by_sp
+
+        def open_job(interp, b):
+            # the cache is authoritative for a job it knows: a (possibly foreign but valid JSON) state point file must not win over it
+            ex = interp.ex
+            proj, sp = b["self"], b["statepoint"]
+            jid = ctx.ghost.get("cur_job_id")
+            c0 = ctx.ghost.get("cache0")
+            if jid is not None and c0 is not None and sp is not None:
+                ex.oblige(self.oname("call[open_job]:a_job_known_to_the_cache_is_restored_from_the_cache"),
+                          z3.Implies(c0[0][jid], spv_of(sp) == c0[1][jid]))
+            return orig_open(interp, b)
+        ctx.callee_contracts[f"{PRJ}.Project.open_job"] = open_job
 
         def find_all(interp, b):
             s = stub_find_job_ids_all(interp, b)
@@ -931,6 +952,8 @@ class ProjRepair(PContract):
             ctx.fs = f
             ctx.ghost["fs_iter0"] = f
             ctx.ghost["in_body"] = True
+            c = ctx.ghost["proj"].fields["_sp_cache"]
+            ctx.ghost["cache0"] = (c.dom, c.val)
 
         def hv_bag(interp, fr, tag):
             f = z3.Function(interp.ex.fresh_name("corr"), Id, z3.BoolSort())
@@ -964,6 +987,7 @@ class ProjRepair(PContract):
         proj = self.fresh_project(interp)
         ex, ctx = interp.ex, interp.ctx
         ctx.ghost["p"] = proj.p
+        ctx.ghost["proj"] = proj
         n = ctx.fs0.pf[PF.mk(proj.p, PName.CACHE)]
         ex.assume(z3.Implies(z3.And(Node.is_File(n), cache_ok(Node.data(n))), file_valid(Node.data(n))))
         ctx.overrides[(JOB, "RLock")] = NativeStub(lambda: None, "RLock")
@@ -1107,3 +1131,138 @@ class CursorGetitem(CursorContract):
 
 
 CONTRACTS += [CursorLen(), CursorContains(), CursorGetitem()]
+
+
+# ============================================================================= Project._build_index (what the search index is built from)
+
+
+class BuildIndex(PContract):
+    target = f"{PRJ}.Project._build_index"
+    properties = ("C06", "C18")
+    faults = False
+    callees = {f"{PRJ}.Project._find_job_ids": stub_find_job_ids_all, f"{PRJ}.Project._get_statepoint": stub_get_sp}
+
+    def cases(self):
+        return [{"include": False}, {"include": True}]
+
+    def loops(self, case):
+        inv = lambda interp, fr, i, seq: z3.BoolVal(True)
+
+        def body(interp, fr, writes):
+            ctx, ex = interp.ctx, interp.ex
+            g = ctx.ghost
+            ys = g["yielded"]
+            jid = g.get("cur_job_id")
+            p = g["p"]
+            ok = len(ys) == 1 and isinstance(ys[0], tuple) and len(ys[0]) == 2 and isinstance(ys[0][0], SId) and isinstance(ys[0][1], dict)
+            ex.oblige(self.oname("body:every_listed_job_is_indexed_exactly_once"), z3.BoolVal(ok), note=f"{len(ys)} entries yielded for one job")
+            if not ok:
+                return
+            yid, doc = ys[0]
+            ex.oblige(self.oname("body:entry_is_keyed_by_the_job_id"), yid.e == jid)
+            sp = doc.get("sp")
+            ex.oblige(self.oname("body:entry_carries_the_job's_state_point_under_'sp'"), z3.BoolVal(isinstance(sp, SSP) and set(doc) <= {"sp", "doc"}))
+            n = ctx.fs.ent[JD.mk(p, jid)][Name.DOC]
+            has_file = z3.And(ctx.fs.dirs[JD.mk(p, jid)], Node.is_File(n))
+            if case["include"]:
+                ex.oblige(self.oname("body:document_included_iff_the_document_file_exists"), z3.BoolVal("doc" in doc) == has_file)
+                if "doc" in doc:
+                    d = doc["doc"]
+                    ex.oblige(self.oname("body:included_document_is_the_parsed_file_content"), d.e == parsed(Node.data(n)) if isinstance(d, SSP) else z3.BoolVal(False))
+            else:
+                ex.oblige(self.oname("body:no_document_unless_requested"), z3.BoolVal("doc" not in doc))
+            g["yielded"].clear()
+        return {"self._find_job_ids()": LoopSpec("jobs", inv, havoc={}, scratch=("job_id", "doc", "fn_document", "file", "error"), heap_frame=body)}
+
+    def setup(self, interp, case):
+        proj = self.fresh_project(interp)
+        interp.ctx.ghost.update({"p": proj.p, "yielded": []})
+        return [proj], {"include_job_document": case["include"]}, {}
+
+    def yield_hook(self, interp, case, pre):
+        return lambda v: interp.ctx.ghost["yielded"].append(v)
+
+    def post(self, interp, case, pre, outcome):
+        ex, ctx = interp.ex, interp.ctx
+        ex.oblige(self.oname("frame:reads_only"), ctx.fs.eq(ctx.fs0))
+        if outcome[0] == "raise":
+            import json as _json
+            ex.oblige(self.oname("raises:only_lookup_or_decode_errors"), z3.BoolVal(isinstance(outcome[1], (KeyError, _json.JSONDecodeError)) or type(outcome[1]).__name__ in ("JobsCorruptedError", "WorkspaceError")), note=repr(outcome[1]))
+
+
+CONTRACTS += [BuildIndex()]
+
+
+# ============================================================================= Project.detect_schema: which jobs the summary is computed from
+
+
+class SIdxTok(Sym):
+    """a _SearchIndexer with a concrete key list (ids as plain strings) and opaque per-job documents"""
+
+    def __init__(self, keys):
+        self.keys = list(keys)
+
+    def sym_getattr(self, ex, name):
+        if name == "keys":
+            return NativeStub(lambda: list(self.keys), "index.keys")
+        raise Unsupported(f"index.{name}")
+
+    def sym_getitem(self, ex, k):
+        if k in self.keys:
+            return ("docs-of", k)
+        raise RaiseSignal(KeyError(k))
+
+
+class DetectSchema(PContract):
+    target = f"{PRJ}.Project.detect_schema"
+    properties = ("C18",)
+    faults = False
+    inline = GETTERS + ("signac.schema.ProjectSchema.__init__",)
+
+    def cases(self):
+        return [{"subset": s, "exclude_const": e} for s in (None, "empty", "some", "unknown-ids") for e in (False, True)]
+
+    def make_ctx(self, case):
+        ctx = super().make_ctx(case)
+        g = ctx.ghost
+        ALL = ["id1", "id2", "id3"]
+        g["all"] = ALL
+        ctx.callee_contracts[f"{PRJ}.Project._build_index"] = lambda interp, b: ("build_index", b["include_job_document"])
+
+        def inst(interp, rc, args, kw):
+            if rc.name == "_SearchIndexer":
+                a = args[0]
+                if isinstance(a, tuple) and a and a[0] == "build_index":
+                    g["include_doc"] = a[1]
+                    return SIdxTok(ALL)
+                items = list(a)
+                return SIdxTok([k for k, _ in items])
+            return NotImplemented
+        ctx.instantiate = inst
+
+        def bjsi(interp, b):
+            g["handed"] = b["index"]
+            g["exclude_const"] = b["exclude_const"]
+            return []
+        ctx.callee_contracts["signac.schema._build_job_statepoint_index"] = bjsi
+        return ctx
+
+    def setup(self, interp, case):
+        proj = self.fresh_project(interp)
+        sub = {None: None, "empty": [], "some": ["id3", "id1"], "unknown-ids": ["id2", "zzz"]}[case["subset"]]
+        return [proj], {"exclude_const": case["exclude_const"], "subset": sub}, {"sub": sub}
+
+    def post(self, interp, case, pre, outcome):
+        ex, g = interp.ex, interp.ctx.ghost
+        if outcome[0] != "return":
+            ex.oblige(self.oname("raises:nothing"), False, note=repr(outcome[1]))
+            return
+        h = g.get("handed")
+        want = g["all"] if pre["sub"] is None else [i for i in g["all"] if i in pre["sub"]]
+        ex.oblige(self.oname("ensures:schema_is_computed_from_exactly_the_selected_existing_jobs_(an_empty_selection_selects_nothing)"),
+                  z3.BoolVal(isinstance(h, SIdxTok) and sorted(h.keys) == sorted(want)), note=f"index keys {getattr(h, 'keys', None)}, selection {pre['sub']}")
+        ex.oblige(self.oname("ensures:exclude_const_is_forwarded_and_documents_are_not_indexed"),
+                  z3.BoolVal(g.get("exclude_const") is case["exclude_const"] and g.get("include_doc") is False))
+
+
+CONTRACTS += [DetectSchema()]
